@@ -8,6 +8,7 @@ import (
 	"verifharness/chain"
 	"verifharness/fw"
 	"verifharness/gen"
+	"verifharness/model"
 
 	disttypes "github.com/chain4energy/c4e-chain/x/cfedistributor/types"
 	sigtypes "github.com/chain4energy/c4e-chain/x/cfesignature/types"
@@ -28,6 +29,7 @@ type rich struct {
 	now       time.Time
 	times     []time.Time
 	ti        int
+	maxT      time.Time
 	// observations of the last step on the primary and on each follower
 	lastBegin     []abci.ResponseBeginBlock
 	lastBeginErr  []error
@@ -57,6 +59,23 @@ func newRich(c *fw.Case, record bool) (*rich, error) {
 	horizon := mc.Horizon(c.R)
 	r.times = gen.Partition(c.R, gen.Epoch, horizon, mc.Schedule.Boundaries(horizon, 30), c.R.Intn(2), 400)
 	r.now = gen.Epoch
+	// an unbounded final exponential period is iterated step by step in every BeginBlock:
+	// block times stay within 20000 steps of its start (with 1 s steps the history then
+	// proceeds in sub-second blocks instead of jumping a year ahead)
+	if lp := mc.Schedule.Periods[len(mc.Schedule.Periods)-1]; lp.Kind == model.ExponentialStep {
+		ls := mc.Schedule.Start
+		for _, p := range mc.Schedule.Periods {
+			if p.End != nil {
+				ls = *p.End
+			}
+		}
+		if ls.Before(gen.Epoch) {
+			ls = gen.Epoch
+		}
+		if lp.Step < 40*365*24*time.Hour/20000 {
+			r.maxT = ls.Add(20000 * lp.Step)
+		}
+	}
 	return r, nil
 }
 
@@ -66,6 +85,14 @@ func (r *rich) nodes() []*chain.Node {
 
 // nextTime mixes schedule boundaries with vesting boundaries.
 func (r *rich) nextTime(c *fw.Case) time.Time {
+	t := r.nextTimeUnbounded(c)
+	if !r.maxT.IsZero() && t.After(r.maxT) {
+		t = r.now.Add(time.Duration(1+c.R.Intn(1000)) * time.Millisecond)
+	}
+	return t
+}
+
+func (r *rich) nextTimeUnbounded(c *fw.Case) time.Time {
 	if c.R.Intn(2) == 0 {
 		for r.ti < len(r.times) && !r.times[r.ti].After(r.now) {
 			r.ti++
